@@ -51,6 +51,11 @@ CLAIMED = {
   text="Exhaustive for the finite primitives (Depth, Overwrite: encode and decode tables extracted from the SSA are mutually inverse and every other string is rejected). For the others only the structural necessary conditions: encoder and decoder use an inverse pair of primitives with the same constants (%q/Unquote, Format(L)/Parse(L), http.TimeFormat/ParseTime, URL.String/url.Parse, three-field status line), every literal-zone layout is applied to a UTC-normalised instant, no decoder drops its parser's error. Does not decide the round trip over all strings and instants (values, not shape).",
   note="Trusted: go/ssa; the standard library's inverse-pair contracts.",
   ref="DESIGN.md §3 C16"),
+ "C03": dict(
+  technique="static analysis: backward must-derive taint from every file-system call argument to the sanitiser, who-may-call layering, and the sanitiser's decision table by abstract interpretation of go/ssa",
+  text="Decides the complete lexical confinement argument on every path of the current source: every path argument of every os/ioutil/filepath.Walk call derives only from localPath's result where its error is nil (through phis, captured variables, helper parameters over all call sites, Walk callbacks); such calls occur only in LocalFileSystem methods and their private helpers; localPath succeeds exactly for NUL-free names whose path.Clean form is absolute and returns Join(root, FromSlash(Clean(name))), 4xx otherwise (per GOOS); every reported path is the request name or \"/\"+ToSlash(Rel(root, walk path)). Anchored at the sinks, so it covers the request path and Destination alike. Behaviour with symbolic links and URL escaping of reported paths are not decided.",
+  note="Trusted: go/ssa; path.Clean removes every '..' of a rooted path; filepath.Join/FromSlash are lexical; no symlink below the root points outside.",
+  ref="DESIGN.md §3 C03"),
 }
 
 def main():
